@@ -253,6 +253,35 @@ func genC04(g *genCtx) {
 	}
 	genC04values(g)
 	genC04shapes(g)
+	genC04ns(g)
+}
+
+// namespaced documents and maps: one compiled expression with prefixed name tests visits, in turn, documents in
+// which the same prefix is bound to different URIs (and elements without a namespace after a default-namespace
+// document) — anything the expression remembers about a prefix from an earlier node or document shows
+func genC04ns(g *genCtx) {
+	r := g.r
+	pool := docPool(r, nsProfile, 4, 2, g.scale(40, 150), 12)
+	maps := []map[string]string{{"p": "urn:p"}, {"p": "urn:p", "q": "urn:q"}, {"x": "urn:p"}, {"p": "urn:q"}, {"q": "urn:p", "p": "urn:d"}}
+	exprs := []string{"//p:a", "//p:*", "//q:b", "//x:a", "//*[p:a]", "count(//p:a)", "//p:a/@p:k", "//@p:*", "//p:a | //q:a", "//*[self::p:a]", "descendant::p:b", "//p:a[1]", "name(//p:a)", "//x:*/x:a",
+		"count(//p:a) + count(//q:*)", "//*[not(p:*)]", "string(//p:a/@k)"}
+	for i := 0; i < g.scale(1500, 15000); i++ {
+		d, d2 := pool[r.intn(len(pool))], pool[r.intn(len(pool))]
+		ops := []string{"D" + hx(d2.Encode())}
+		for k := 0; k < 3+r.intn(5); k++ {
+			dd, at := d, ""
+			if r.chance(1, 2) {
+				dd, at = d2, "@"
+			}
+			ctx := pickNodeCtx(r, dd)
+			if r.chance(1, 3) {
+				ops = append(ops, "E"+at+ctx.String())
+			} else {
+				ops = append(ops, fmt.Sprintf("S%s%s:-1", at, ctx))
+			}
+		}
+		g.add(&Case{Kind: "hist", Doc: d, Ctx: Ref{0, -1}, NS: maps[r.intn(len(maps))], Expr: r.pick(exprs), Extra: strings.Join(ops, ";")})
+	}
 }
 
 // per-expression caches keyed by node *identity*: two documents of the same shape (same names, same
@@ -904,6 +933,11 @@ func genC11(g *genCtx) {
 		}
 		g.add(&Case{Kind: "sel", Doc: d, Ctx: pickCtx(r, d), Expr: e})
 	}
+	// very wide documents: children that differ only in a position far beyond any small bound (65 536 and more
+	// siblings apart) are still different nodes
+	for _, ij := range [][2]int{{1, 65537}, {3, 65539}, {2, 2}, {1, 257}, {7, 65543}, {100, 65636}, {1, 65536}, {255, 256}, {4097, 69633}} {
+		g.add(&Case{Kind: "wide", Extra: fmt.Sprintf("%d;%d;%d", 70000, ij[0], ij[1])})
+	}
 }
 
 func genC12(g *genCtx) {
@@ -941,6 +975,16 @@ func genC12(g *genCtx) {
 			ctx = pickCtx(r, d) // attribute context nodes too
 		}
 		g.add(&Case{Kind: "iter", Doc: d, Ctx: ctx, Expr: e, Extra: fmt.Sprint(r.intn(6)) + flat})
+	}
+	// the same relations on a compiled expression that is used again: Select twice, Evaluate, an abandoned Select,
+	// another context node
+	for i := 0; i < g.scale(2500, 25000); i++ {
+		d := pool[r.intn(len(pool))]
+		e := r.pick([]string{genFlatPath(r), genFlatPath(r), "./" + genFlatPath(r), "self::*/" + genFlatPath(r), genFlatPath(r) + "/.", genPathPF(r, 2, nodeTests),
+			"reverse(" + genFlatPath(r) + ")", "count(" + genFlatPath(r) + ")", genFilteredPath(r, 0), ".//" + r.pick(nodeTests)})
+		c1, c2 := pickNodeCtx(r, d).String(), pickNodeCtx(r, d).String()
+		ops := []string{"S" + c1 + ":-1", "S" + c1 + ":-1", "E" + c1, "S" + c2 + ":1", "S" + c1 + ":-1", "E" + c2, "S" + c2 + ":-1"}
+		g.add(&Case{Kind: "hist", Doc: d, Ctx: Ref{0, -1}, Expr: e, Extra: strings.Join(ops[:3+r.intn(5)], ";")})
 	}
 	// attribute nodes reaching another step indirectly (through self steps, or as the context node): an attribute
 	// has no attributes and no children
